@@ -178,6 +178,43 @@ def run(ctx):
                 ctx.ob("C18.R2b", inst, looks_further, fn.loc,
                        "empty() is answered from the head table alone: a default-constructed set that grew reports empty",
                        site="%s@placeholder-empty" % inst)
+    # ------------------------------------------------ R7 every chain operation starts at the head table
+    n7 = 0
+    for fn in fb.find(pred=lambda f: TRANS.match(f.record or "") and f.has_cfg() and not f.lambda_ and f.name in ("emplace", "find")):
+        ig = IG(fn, inline=lambda a, b, c: False)
+        live = ig.live_nodes()
+        ops = [n for n in ig.ev_nodes() if n.id in live and n.ev["e"] == "call" and n.ev.get("name") == fn.name and
+               "this" in n.ev and any(sd.get("k") == "f" and sd.get("n") == "table" for sd in walk(n.ev["this"]))]
+        if not ops:
+            continue
+        n7 += 1
+
+        def head_obj(d):
+            d = strip_cast(d)
+            if isinstance(d, dict) and d.get("k") == "u" and d.get("op") == "&":
+                d = strip_cast(d.get("x"))
+            return isinstance(d, dict) and d.get("k") == "f" and d.get("n") == "_head" and strip_cast(d.get("b", {})).get("k") == "this"
+
+        def on_head(n):
+            # the table the operation is applied to is this->_head.table, or node->table where every value of `node` that
+            # reaches the operation without having gone round the loop is &this->_head
+            th = strip_cast(ig.rthis(n))
+            if not (isinstance(th, dict) and th.get("k") == "f" and th.get("n") == "table"):
+                return False
+            base = strip_cast(th.get("b"))
+            if head_obj(base):
+                return True
+            if isinstance(base, dict) and base.get("k") == "l":
+                defs = [(dn, rhs) for dn, rhs, how in ig.local_defs(ig.frames[base.get("fr", 0)], base["id"]) if how == "decl"]
+                return bool(defs) and all(rhs is not None and all(head_obj(o) for o in ig.origins(rhs)) for dn, rhs in defs)
+            return False
+        heads = [n for n in ops if on_head(n)]
+        first = [n for n in ops if not any(ig.path_exists(o, n) and not ig.path_exists(n, o) for o in ops if o is not n)]
+        ctx.ob("C18.R7", L.short(fn)[:110], bool(heads) and all(on_head(n) for n in first), fn.loc,
+               "a chain operation must try the head table first and then follow the chain: an insertion or lookup that starts further "
+               "down the chain misses (or duplicates) every key stored in the tables it skipped")
+    ctx.floor("C18.R7", n7, 6, "chain emplace/find instances")
+
     # ------------------------------------------------ R6 lookups walk the groups in the order insertion does
     # (the clause is C03.R7; a sequential history breaks on it just as a concurrent one does - seed C18-2 - so it is armed here too)
     class _Sub:
